@@ -30,10 +30,17 @@
 #ifndef KR
 #define KR 2
 #endif
+/* obligation name prefix: C02 re-uses this harness as C02.serial_equiv */
+#ifndef SER_PREFIX
+#define SER_PREFIX "C09.serial_refines"
+#endif
+#ifndef SER_INV_PREFIX
+#define SER_INV_PREFIX "C09.serial"
+#endif
 #ifdef OP_SUBMIT
-#define INV_NAME "C09.serial.submit.inv"
+#define INV_NAME SER_INV_PREFIX ".submit.inv"
 #else
-#define INV_NAME "C09.serial.dequeue.inv"
+#define INV_NAME SER_INV_PREFIX ".dequeue.inv"
 #endif
 
 static serial_impl_t g_sp;
@@ -159,39 +166,39 @@ void harness(void)
 		int ret = submit(&g_sp.base, ptr);
 		const work_item_t *last = s_last(g_sp.queue, KQ + 1);
 
-		VERIF_ASSERT(g_calls == 0, "C09.serial_refines.once");
+		VERIF_ASSERT(g_calls == 0, SER_PREFIX ".once");
 		if (status0 != 0) {
-			VERIF_ASSERT(ret == status0, "C09.serial_refines.reports_status");
+			VERIF_ASSERT(ret == status0, SER_PREFIX ".reports_status");
 		} else {
 			VERIF_ASSERT(ret == 0 || (ret == -1 && r0head == NULL),
-				     "C09.serial_refines.reports_status");
+				     SER_PREFIX ".reports_status");
 		}
-		VERIF_ASSERT(g_sp.status == status0, "C09.serial_refines.reports_status");
+		VERIF_ASSERT(g_sp.status == status0, SER_PREFIX ".reports_status");
 		if (ret == 0) {
 			VERIF_ASSERT(s_len(g_sp.queue, KQ + 1) == q0n + 1,
-				     "C09.serial_refines.fifo");
+				     SER_PREFIX ".fifo");
 			VERIF_ASSERT(last != NULL && last->data == ptr &&
-				     last->next == NULL, "C09.serial_refines.fifo");
+				     last->next == NULL, SER_PREFIX ".fifo");
 			for (i = 0; i < 4; ++i) {
 				if (i < q0n)
 					VERIF_ASSERT(s_nth(g_sp.queue, i, KQ + 1) == QN(i) &&
 						     QN(i)->data == q0data[i],
-						     "C09.serial_refines.fifo");
+						     SER_PREFIX ".fifo");
 			}
 			VERIF_ASSERT(r0head == NULL ? g_sp.recycle == NULL
 				     : (last == r0head &&
 					s_len(g_sp.recycle, KR + 1) == r0n - 1),
-				     "C09.serial_refines.once");
+				     SER_PREFIX ".once");
 		} else {
 			VERIF_ASSERT(s_len(g_sp.queue, KQ + 1) == q0n &&
 				     g_sp.queue == (q0n > 0 ? QN(0) : NULL) &&
 				     g_sp.recycle == r0head,
-				     "C09.serial_refines.reports_status");
+				     SER_PREFIX ".reports_status");
 			for (i = 0; i < 4; ++i) {
 				if (i < q0n)
 					VERIF_ASSERT(s_nth(g_sp.queue, i, KQ + 1) == QN(i) &&
 						     QN(i)->data == q0data[i],
-						     "C09.serial_refines.reports_status");
+						     SER_PREFIX ".reports_status");
 			}
 		}
 		VERIF_COVER(ret == 0 && q0n == KQ && r0head != NULL);
@@ -208,29 +215,29 @@ void harness(void)
 			VERIF_ASSERT(ptr == NULL && g_calls == 0 &&
 				     g_sp.queue == NULL && g_sp.recycle == r0head &&
 				     g_sp.status == status0,
-				     "C09.serial_refines.empty");
+				     SER_PREFIX ".empty");
 		} else {
-			VERIF_ASSERT(ptr == q0data[0], "C09.serial_refines.fifo");
+			VERIF_ASSERT(ptr == q0data[0], SER_PREFIX ".fifo");
 			VERIF_ASSERT(g_calls == 1 && g_cb_item == q0data[0],
-				     "C09.serial_refines.once");
-			VERIF_ASSERT(g_cb_user == user0, "C09.serial_refines.ctx");
+				     SER_PREFIX ".once");
+			VERIF_ASSERT(g_cb_user == user0, SER_PREFIX ".ctx");
 			VERIF_ASSERT(g_sp.queue == (q0n > 1 ? QN(1) : NULL) &&
 				     s_len(g_sp.queue, KQ + 1) == q0n - 1,
-				     "C09.serial_refines.fifo");
+				     SER_PREFIX ".fifo");
 			for (i = 1; i < 4; ++i) {
 				if (i < q0n)
 					VERIF_ASSERT(s_nth(g_sp.queue, i - 1, KQ + 1) == QN(i) &&
 						     QN(i)->data == q0data[i],
-						     "C09.serial_refines.fifo");
+						     SER_PREFIX ".fifo");
 			}
 			VERIF_ASSERT(g_sp.recycle == QN(0) && QN(0)->next == r0head &&
-				     QN(0)->data == NULL, "C09.serial_refines.once");
+				     QN(0)->data == NULL, SER_PREFIX ".once");
 			VERIF_ASSERT(g_sp.status ==
 				     (status0 != 0 ? status0 : g_cb_status),
-				     "C09.serial_refines.status_first");
+				     SER_PREFIX ".status_first");
 		}
 		st = get_status(&g_sp.base);
-		VERIF_ASSERT(st == g_sp.status, "C09.serial_refines.status_first");
+		VERIF_ASSERT(st == g_sp.status, SER_PREFIX ".status_first");
 		VERIF_COVER(q0n == 0);
 		VERIF_COVER(q0n == KQ && g_cb_status != 0 && status0 == 0);
 		VERIF_COVER(q0n == 1 && status0 != 0 && g_cb_status != status0);
